@@ -163,7 +163,22 @@ pub fn layout_for(seed: u64, n: usize) -> (usize, usize, [(usize, usize); 3]) {
     (w, h, pads)
 }
 
-/// Real-size frames: pixel counts above 2^15, 2^16 and 2^18, counts that are not multiples of 4/8/16,
-/// rows wider than 8192 and 65536, and a full-HD frame. Size-gated fast paths (tables, tiling, threads)
-/// only run on such images. (w, h) before rounding to the subsampling.
-pub const LARGE_SIZES: [(usize, usize); 10] = [(256, 128), (257, 255), (384, 256), (448, 256), (521, 511), (1920, 1080), (8200, 3), (65540, 1), (40002, 2), (131080, 1)];
+/// Real-size frames: pixel counts above 2^15, 2^16, 2^18, 2^21 and 2^22 (odd counts: not multiples of 4/8/16),
+/// rows wider than 8192 and 65536, full HD and (last entry, thorough tiers) one pixel more than UHD in each
+/// direction. Size-gated fast paths (tables, tiling, threads) only run on such images. The first eight entries
+/// are the quick set. (w, h) before rounding to the subsampling.
+pub const LARGE_SIZES: [(usize, usize); 13] = [
+    (256, 128),
+    (257, 255),
+    (448, 256),
+    (521, 511),
+    (1449, 1449),
+    (8200, 3),
+    (65540, 1),
+    (2049, 2049),
+    (384, 256),
+    (1920, 1080),
+    (40002, 2),
+    (131080, 1),
+    (3841, 2161),
+];
